@@ -25,6 +25,7 @@ RULE = ('(a) unit level: the real DynamicUniverse probed at entry-1min, entry-1u
 RULE += " Unit part: signals built on a StaticUniverse are hand-fed prices (also for a non-member reference asset) and the universe must still yield its configured list. Every sixth session: start and end given as plain dates (00:00), the session's own default data handler, daily rebalance and one asset entering on the last simulated day."
 RULE += ' PCM-level part: half of the cases use the EqualWeightPortfolioOptimiser (members share the scale, nobody else gets a weight). Sessions: every cell of get_target_allocations() must follow the recorded rows.'
 RULE += ' Unit part also: entries far in the future (2300-9000) in 15% of the maps; one SingleSignalAlphaModel object asked at every probe instant (also twice on one day around an entry) must weight exactly the members.'
+RULE += " Unit part also: null timestamps (pd.NaT) as entry dates; the dict SingleSignalAlphaModel returns and the equal-weight optimiser's answer are emptied/extended by the caller before the next call; the static universe is built from a shuffled caller list that must keep its order after a signal was built on it."
 ASSUMPTIONS = ['UTC timestamps']
 
 
